@@ -177,3 +177,100 @@ Feature: f
   | None => False
   end.
 Proof. vm_compute. repeat split. Qed.
+
+Require Import Ast ColErase IndentTail IndentParse StopFirst StopAccepts.
+
+(* Indentation.  The AST builder never looks at a column: running any builder operation on a state whose columns
+   (of tokens, tag / cell items, finished nodes, comments) are forgotten gives the result with its columns forgotten --
+   the builder's own error included. *)
+Theorem C16_builder_blind_columns : forall t r b,
+  builder_build (tce t) (bce b) = bout_ce (builder_build t b)
+  /\ builder_end r (bce b) = bout_ce (builder_end r b)
+  /\ builder_result (bce b) = option_map ce_doc (builder_result b).
+Proof. intros t r b. exact (conj (builder_build_ce t b) (conj (builder_end_ce r b) (builder_result_ce b))). Qed.
+Print Assumptions C16_builder_blind_columns.
+
+(* For the matcher, two physical lines with the same text after their leading whitespace are the same line up to
+   columns: same answer; matched tokens equal up to columns; matcher states equal up to the doc string indentation to
+   remove; errors equal up to their column -- for every question except "free text?" when the text that would be kept
+   differs and "comment?" on a comment line whose text differs. *)
+Theorem C16_matcher_blind_indent : forall l l' m m' t t' k, l_trimmed l = l_trimmed l' -> l_no l = l_no l' -> msim m m' ->
+  tk_line t = Some l -> tk_line t' = Some l' -> tce t = tce t' -> iblind k m m' l l' ->
+  mouti_rel t t' (matcher Dialects.dialects k m t) (matcher Dialects.dialects k m' t').
+Proof. intros l l' m m' t t' k H1 H2 H3 H4 H5 H6 H7. exact (matcher_indent l l' H1 H2 m m' H3 t t' H4 H5 H6 k H7). Qed.
+Print Assumptions C16_matcher_blind_indent.
+
+(* Two sources whose physical lines pairwise have the same text after their leading whitespace (any change of
+   indentation: more, less, tabs for blanks) give, in stop-at-first-error mode, the same document up to columns -- or the
+   same first error up to its column --, matcher states equal up to the indentation to remove, the same number of
+   matcher calls, whenever the run on the first source never asks of a pair of lines whether it is free text whose kept
+   text differs (a doc string that moves as one block keeps its content) or a comment whose text differs. *)
+Theorem C16_indentation : forall m b src src',
+  Forall2 same_text (py_lines src) (py_lines src') ->
+  indent_safe (ipair_lines (py_lines src) (py_lines src') 1) m b ->
+  psimc (parse_source true m b src) (parse_source true m b src').
+Proof. exact indentation_neutral. Qed.
+Print Assumptions C16_indentation.
+
+(* ... and for accepted documents the same holds in error-collecting mode (the default) *)
+Theorem C16_indentation_accepted : forall m b src src' d m1 b1 n,
+  Forall2 same_text (py_lines src) (py_lines src') ->
+  indent_safe (ipair_lines (py_lines src) (py_lines src') 1) m b ->
+  parse_source false m b src = POk d m1 b1 n ->
+  exists d' m1' b1', parse_source false m b src' = POk d' m1' b1' n /\ ce_doc d = ce_doc d' /\ msim m1 m1'.
+Proof.
+  intros m b src src' d m1 b1 n R G H. apply source_collect_accepts in H.
+  pose proof (indentation_neutral m b src src' R G) as S. rewrite H in S.
+  destruct (parse_source true m b src') as [d' m1' b1' n'| | | |] eqn:P'; cbn [psimc] in S; try contradiction.
+  destruct S as (D & M & <-). exists d', m1', b1'. split; [apply source_stop_accepts; exact P' | split; assumption].
+Qed.
+Print Assumptions C16_indentation_accepted.
+
+(* the paired run is the real run on the first source (stop mode) *)
+Theorem C16_indent_paired_run_is_the_run : forall xs m b,
+  oute_rel IMRa eq ER (ipaired_run xs m b) (parse_tokens true (map fst xs) m b).
+Proof.
+  intros xs m b. unfold ipaired_run, parse_tokens, parse_tokens_with.
+  rewrite <- (StopIndep.parse_stop_indep (pipeline_params Table.table) no_dedupe). apply (res_R_oute ITRa IMRa eq ER).
+  exact (parse_R _ _ ITRa _ _ IMRa _ _ eq _ _ ER IA pipeline_nd iparamsA_related true true (bool_R_refl true)
+                 xs (map fst xs) (ilist_fst xs) (reset_matcher Dialects.dialects m, reset_matcher Dialects.dialects m, false)
+                 (reset_matcher Dialects.dialects m) eq_refl (reset_builder b) (reset_builder b) eq_refl).
+Qed.
+Print Assumptions C16_indent_paired_run_is_the_run.
+
+(* non-vacuity: every keyword, step, tag, row line indented further, the doc string moved as one block (its content line
+   with it), tabs for blanks: hypotheses and conclusion; the flag goes up when only the content line of the doc string moves *)
+Definition c16_indented : str := s2l
+"   @t
+	Feature: f
+      Scenario: s
+          Given g
+              | a |
+      And d
+          ```
+          text  
+          ```
+".
+Example C16_indentation_sample :
+  match new_matcher Dialects.dialects (s2l "en") with
+  | Some m =>
+    forallb2 same_textb (py_lines c16_plain) (py_lines c16_indented) = true
+    /\ iflag_down (ipaired_run (ipair_lines (py_lines c16_plain) (py_lines c16_indented) 1) m (new_builder 0)) = true
+    /\ match parse_source true m (new_builder 0) c16_plain, parse_source true m (new_builder 0) c16_indented with
+       | POk d _ _ _, POk d' _ _ _ => ce_doc d = ce_doc d' /\ d <> d'
+       | _, _ => False
+       end
+    /\ iflag_down (ipaired_run (ipair_lines (py_lines c16_plain) (py_lines (s2l
+"@t
+Feature: f
+  Scenario: s
+    Given g
+      | a |
+    And d
+      ```
+        text  
+      ```
+")) 1) m (new_builder 0)) = false
+  | None => False
+  end.
+Proof. vm_compute. repeat split. discriminate. Qed.
